@@ -7,6 +7,7 @@
 """
 import os, re, subprocess, sys, shutil, json
 V = os.environ.get("VERIF_DIR", "/verif")
+REPO = os.environ.get("REPO", "/repo")  # the tree the patch is applied to (a snapshot pair can be used to keep /repo free)
 R = os.environ.get("SEED_ROUND", "seed")  # scratch prefix: /tmp/<R>_<ID> and /tmp/<R>_<ID>_out
 def sh(cmd, cwd=None, env=None, timeout=3600):
     e = dict(os.environ); e["CARGO_NET_OFFLINE"] = "true"
@@ -21,16 +22,16 @@ def patch_path(pid, x):
 
 def detect(pid, x, tier):
     patch = patch_path(pid, x)
-    rc, out = sh(["git", "-C", "/repo", "status", "--porcelain", "--untracked-files=no"])
+    rc, out = sh(["git", "-C", REPO, "status", "--porcelain", "--untracked-files=no"])
     if out.strip():
-        print("ERROR: /repo is dirty"); return 3
-    rc, out = sh(["git", "-C", "/repo", "apply", patch])
+        print("ERROR: %s is dirty" % REPO); return 3
+    rc, out = sh(["git", "-C", REPO, "apply", patch])
     if rc != 0:
         print("ERROR: patch does not apply:", out); return 3
     try:
         rc, out = sh([os.path.join(V, "check"), pid, tier], cwd=V)
     finally:
-        sh(["git", "-C", "/repo", "checkout", "--", "."])
+        sh(["git", "-C", REPO, "checkout", "--", "."])
     viol = [l for l in out.splitlines() if l.startswith("VIOLATION")]
     msgs = [l for l in out.splitlines() if l.startswith("  message")]
     verdict = {0: "MISSED", 1: "DETECTED"}.get(rc, "INCONCLUSIVE rc=%d" % rc)
